@@ -98,7 +98,7 @@ fn msg_strat() -> BoxedStrategy<ExtMsg> {
         2 => Just(None),
         5 => (
             prop_oneof![6 => ext_structure(), 1 => (ext_structure(), 0u8..16).prop_map(|(mut s, v)| { s.version = v; s })],
-            prop_oneof![Just(ExtStyle::Compliant), Just(ExtStyle::Legacy)]
+            prop_oneof![2 => Just(ExtStyle::Compliant), 2 => Just(ExtStyle::Legacy), 1 => Just(ExtStyle::ShortLength)]
         )
             .prop_map(Some),
     ];
@@ -154,6 +154,16 @@ fn roundtrip_test(m: &ExtMsg, obs: &mut Obs) -> CheckResult {
                     let mut p = m.original.clone();
                     p.truncate(128);
                     p.resize(128, 0);
+                    p
+                }
+                ExtStyle::ShortLength => {
+                    // the padding up to 128 octets is trimmed; from 128 octets upward as Compliant
+                    let mut p = m.original.clone();
+                    let mut pl = l;
+                    if pl % unit != 0 {
+                        pl += unit - pl % unit;
+                    }
+                    p.resize(pl, 0);
                     p
                 }
             };
